@@ -125,7 +125,7 @@ def gen_case(rng: random.Random, tier: str) -> dict:
     order = list(range(len(blk["nodes"])))
     rng.shuffle(order)
     return {"blk": blk, "order": order, "nested": nested, "async": [gen.gen_async_cfg(rng) for _ in range(2)], "tier": tier,
-            "api": {"decorators": rng.random() < 0.35, "explicit_edges": rng.random() < 0.2, "wrap_async": False}}
+            "api": {"decorators": rng.random() < 0.35, "explicit_edges": rng.random() < 0.2, "wrap_async": False, "rename_emit": rng.random() < 0.3}}
 
 
 def _graph(doc: dict) -> dict:
